@@ -49,6 +49,10 @@ def scratch_home():
     base = '/dev/shm' if os.path.isdir('/dev/shm') else tempfile.gettempdir()
     home = tempfile.mkdtemp(prefix='ssepy-verif-', dir=base)
     os.environ['HOME'] = home
+    if os.environ.get('VERIF_HOME_UNWRITABLE'):
+        # environment variant: the library runs with a HOME in which nothing can be created (a service account); the harness keeps
+        # its own scratch directory
+        os.environ['HOME'] = '/proc/ssepy-verif-no-such-home'
     _state['home'] = home
     _state['pid'] = os.getpid()
     logging.disable(logging.CRITICAL)
